@@ -62,7 +62,7 @@ class BILLPAYMSGSRSV1(Aggregate):
     recpmttrnrs = ListAggregate(RECPMTTRNRS)
     payeetrnrs = ListAggregate(PAYEETRNRS)
     pmtinqtrnrs = ListAggregate(PMTINQTRNRS)
-    pmtmailtrns = ListAggregate(PMTMAILTRNRS)
+    pmtmailtrnrs = ListAggregate(PMTMAILTRNRS)
     pmtsyncrs = ListAggregate(PMTSYNCRS)
     recpmtsyncrs = ListAggregate(RECPMTSYNCRS)
     payeesyncrs = ListAggregate(PAYEESYNCRS)
